@@ -52,6 +52,57 @@ package signal
 //@ invariant len(rangeDelta) == numSignalCells && len(phaseRangeDelta) == numSignalCells && len(lockTimeIndicator) == numSignalCells && len(halfCycleAmbiguity) == numSignalCells && len(cnr) == numSignalCells && len(phaseRangeRateDelta) == numSignalCells
 //@ decreases len(header.Signals) - rangeindex
 
+// display: an invalid rough range / rough rate shows as "invalid" (both log levels)
 //@ func (*Cell).String
 //@ requires[C07] cell != nil && cell.Satellite != nil
 //@ arith wrap
+//@ atcall[C08] fmt.Sprintf /^%2d %2d \{?%s, %s, %s, %s, %d, %v, %d, %\.3f\}?$/: (cell.Satellite.RangeWholeMillis == 255 ==> argstr(a1, 2) == "invalid" && argstr(a1, 3) == "invalid") && (cell.Satellite.PhaseRangeRate == 0 - 8192 ==> argstr(a1, 4) == "invalid" && argstr(a1, 5) == "invalid")
+
+// ---- C08 ------------------------------------------------------------------------
+// Field ranges of a decoded cell: 8-bit whole ms, 10-bit fractional ms, 14-bit rough rate,
+// 20-bit range delta, 24-bit phase range delta, 15-bit rate delta.
+//@ define Cell7WF(c) = c.Satellite != nil && c.Satellite.RangeWholeMillis <= 255 && c.Satellite.RangeFractionalMillis <= 1023 && 0 - 8192 <= c.Satellite.PhaseRangeRate && c.Satellite.PhaseRangeRate < 8192 && 0 - 524288 <= c.RangeDelta && c.RangeDelta < 524288 && 0 - 8388608 <= c.PhaseRangeDelta && c.PhaseRangeDelta < 8388608 && 0 - 16384 <= c.PhaseRangeRateDelta && c.PhaseRangeRateDelta < 16384
+
+//@ func (*Cell).GetAggregateRange
+//@ arith wrap
+//@ requires[C07] cell != nil
+//@ ensures[C08] Cell7WF(cell) && aggRange(cell.Satellite.RangeWholeMillis, cell.Satellite.RangeFractionalMillis, cell.RangeDelta) >= 0 && cell.Satellite.RangeWholeMillis == 255 ==> result == 0
+//@ ensures[C08] Cell7WF(cell) && aggRange(cell.Satellite.RangeWholeMillis, cell.Satellite.RangeFractionalMillis, cell.RangeDelta) >= 0 && cell.Satellite.RangeWholeMillis != 255 && cell.RangeDelta == 0 - 524288 ==> result == aggRange(cell.Satellite.RangeWholeMillis, cell.Satellite.RangeFractionalMillis, 0)
+//@ ensures[C08] Cell7WF(cell) && aggRange(cell.Satellite.RangeWholeMillis, cell.Satellite.RangeFractionalMillis, cell.RangeDelta) >= 0 && cell.Satellite.RangeWholeMillis != 255 && cell.RangeDelta != 0 - 524288 ==> result == aggRange(cell.Satellite.RangeWholeMillis, cell.Satellite.RangeFractionalMillis, cell.RangeDelta)
+//@ ensures[C08] Cell7WF(cell) && aggRange(cell.Satellite.RangeWholeMillis, cell.Satellite.RangeFractionalMillis, cell.RangeDelta) >= 0 ==> result < 274877906944
+
+//@ func (*Cell).GetAggregatePhaseRange
+//@ arith wrap
+//@ requires[C07] cell != nil && cell.Satellite != nil
+//@ ensures[C08] Cell7WF(cell) && aggPhase(cell.Satellite.RangeWholeMillis, cell.Satellite.RangeFractionalMillis, cell.PhaseRangeDelta) >= 0 && cell.Satellite.RangeWholeMillis == 255 ==> result == 0
+//@ ensures[C08] Cell7WF(cell) && aggPhase(cell.Satellite.RangeWholeMillis, cell.Satellite.RangeFractionalMillis, cell.PhaseRangeDelta) >= 0 && cell.Satellite.RangeWholeMillis != 255 && cell.PhaseRangeDelta == 0 - 8388608 ==> result == aggPhase(cell.Satellite.RangeWholeMillis, cell.Satellite.RangeFractionalMillis, 0)
+//@ ensures[C08] Cell7WF(cell) && aggPhase(cell.Satellite.RangeWholeMillis, cell.Satellite.RangeFractionalMillis, cell.PhaseRangeDelta) >= 0 && cell.Satellite.RangeWholeMillis != 255 && cell.PhaseRangeDelta != 0 - 8388608 ==> result == aggPhase(cell.Satellite.RangeWholeMillis, cell.Satellite.RangeFractionalMillis, cell.PhaseRangeDelta)
+//@ ensures[C08] Cell7WF(cell) && aggPhase(cell.Satellite.RangeWholeMillis, cell.Satellite.RangeFractionalMillis, cell.PhaseRangeDelta) >= 0 ==> result < 1099511627776
+
+//@ func (*Cell).GetAggregatePhaseRangeRate
+//@ arith wrap
+//@ requires[C07] cell != nil
+//@ ensures[C08] Cell7WF(cell) && cell.Satellite.PhaseRangeRate == 0 - 8192 ==> result == 0
+//@ ensures[C08] Cell7WF(cell) && cell.Satellite.PhaseRangeRate != 0 - 8192 && cell.PhaseRangeRateDelta == 0 - 16384 ==> result == 10000 * cell.Satellite.PhaseRangeRate
+//@ ensures[C08] Cell7WF(cell) && cell.Satellite.PhaseRangeRate != 0 - 8192 && cell.PhaseRangeRateDelta != 0 - 16384 ==> result == 10000 * cell.Satellite.PhaseRangeRate + cell.PhaseRangeRateDelta
+
+//@ func (*Cell).RangeInMetres
+//@ arith wrap
+//@ requires[C07] cell != nil
+//@ ensures[C08] Cell7WF(cell) && cell.Satellite.RangeWholeMillis != 255 && cell.RangeDelta != 0 - 524288 && aggRange(cell.Satellite.RangeWholeMillis, cell.Satellite.RangeFractionalMillis, cell.RangeDelta) >= 0 ==> near(result, CLIGHT_MS * (real(cell.Satellite.RangeWholeMillis) + real(cell.Satellite.RangeFractionalMillis) / 1024.0 + real(cell.RangeDelta) / 536870912.0), 4)
+
+//@ func (*Cell).PhaseRange
+//@ arith wrap
+//@ requires[C07] cell != nil && cell.Satellite != nil
+//@ ensures[C08] Cell7WF(cell) && cell.Satellite.RangeWholeMillis != 255 && cell.PhaseRangeDelta != 0 - 8388608 && aggPhase(cell.Satellite.RangeWholeMillis, cell.Satellite.RangeFractionalMillis, cell.PhaseRangeDelta) >= 0 && cell.Wavelength > 0.0 ==> near(result * cell.Wavelength, CLIGHT_MS * (real(cell.Satellite.RangeWholeMillis) + real(cell.Satellite.RangeFractionalMillis) / 1024.0 + real(cell.PhaseRangeDelta) / 2147483648.0), 6)
+
+// range rate = rough + fine/10000 m/s; Doppler = -(rate / wavelength)
+//@ func (*Cell).PhaseRangeRate
+//@ arith wrap
+//@ requires[C07] cell != nil
+//@ ensures[C08] Cell7WF(cell) && cell.Satellite.PhaseRangeRate != 0 - 8192 && cell.PhaseRangeRateDelta != 0 - 16384 ==> near(result, real(cell.Satellite.PhaseRangeRate) + real(cell.PhaseRangeRateDelta) / 10000.0, 2)
+
+//@ func (*Cell).PhaseRangeRateDoppler
+//@ arith wrap
+//@ requires[C07] cell != nil
+//@ ensures[C08] Cell7WF(cell) && cell.Satellite.PhaseRangeRate != 0 - 8192 && cell.PhaseRangeRateDelta != 0 - 16384 && cell.Wavelength > 0.0 ==> near(0.0 - result * cell.Wavelength, real(cell.Satellite.PhaseRangeRate) + real(cell.PhaseRangeRateDelta) / 10000.0, 4)
